@@ -42,7 +42,7 @@ def sim_bounds(entry, c, tier):
         c['tmax'] = 'sym'
     if entry == 'fast_nonMarkov_SIS':
         # 4 infections only on <= 3 nodes from <= 2 initial nodes (path cap otherwise)
-        c['max_infections'] = e if (graphs.ALL[c['graph']][0] <= 3 and len(c.get('I0') or []) <= 2) else 3
+        c['max_infections'] = e if (graphs.ALL[c['graph']][0] <= 3 and len(c.get('I0') or []) <= 2 and c['graph'] != 'K3') else 3
         c['delays_per_pair'] = 1
         c['tmax'] = 'sym'
     if entry in DISC:
@@ -70,6 +70,8 @@ def configs(tier):
                     continue
                 if g == 'P3loop' and (len(I0) > 1 or R0):
                     continue
+                if entry == 'fast_nonMarkov_SIS' and g == 'K3' and len(I0) > 2:
+                    continue      # three simultaneous episodes on the triangle exceed the path cap even with 3 infections
                 if tier == 'quick' and entry in ('fast_nonMarkov_SIS', 'fast_SIS') and len(I0) > 1 and g == 'P3':
                     continue
                 c = dict(entry=entry, graph=g, I0=I0, R0=R0, full=True, tags=[g] + (['R0'] if R0 else []))
